@@ -2338,8 +2338,12 @@ class StaticURLInfo:
 
             cache_busters.insert(new_idx, (spec, cachebust, explicit))
 
+        # (spec, explicit) is what identifies a cache buster (see register)
         intr = config.introspectable(
-            'cache busters', spec, 'cache buster for %r' % spec, 'cache buster'
+            'cache busters',
+            (spec, explicit),
+            'cache buster for %r' % spec,
+            'cache buster',
         )
         intr['cachebust'] = cachebust
         intr['path'] = spec
